@@ -97,14 +97,58 @@ Print Assumptions scrolled_back_view.
        cursor and scrolling region equal the reference's ([agrees]).  The feed may be chunked in any way
        (chunking_irrelevant).  Proof: the parser reads the decimal encoding back exactly (Proofs/VTermParse.v),
        every command preserves the relation R between the two states (Proofs/VTermSim.v), induction over the list.
+       [agrees_history]: the answers written to the host are exactly the reference's (DSR 5 -> ESC[0n, DSR 6 ->
+       ESC[row;colR with the reference's cursor position), and as long as only the whole-screen region scrolled
+       ([v_sbknown]) the scrollback holds exactly the lines that left the top of the reference's screen, in order,
+       characters and renditions (the last scrollback_maxlen_gen = 10000 of them: deque(maxlen)).
        The palette (38;5;n) and direct (38;2;r;g;b) colour forms are in both references but outside this theorem:
        they are decided by the oracle only. --- *)
 Theorem vterm_refines_vt100 :
   forall w h e cs, 1 <= w -> 1 <= h ->
   forallb cmd_ok cs = true -> Forall cmd_small cs -> unambiguous (vt_init w h) cs = true ->
-  exists s, run (init w h e) [Feed (enc_cmds cs)] = Ok s /\ agrees s (run_ref (vt_init w h) cs) = true.
+  exists s, run (init w h e) [Feed (enc_cmds cs)] = Ok s /\ agrees s (run_ref (vt_init w h) cs) = true /\
+            agrees_history s (run_ref (vt_init w h) cs) = true.
 Proof. exact refines_vt100. Qed.
 Print Assumptions vterm_refines_vt100.
+
+(* --- corollaries of vterm_safe / chunking_irrelevant spelled out for three classes of hostile input --- *)
+(* any CSI sequence - any parameter bytes (missing, extra, huge, malformed), any final byte - anywhere in a session *)
+Corollary any_csi_is_survived :
+  forall w h e pre params final, 1 <= w -> 1 <= h -> Forall op_ok pre ->
+  exists s, run (init w h e) (pre ++ [Feed (27 :: 91 :: params ++ [final])]) = Ok s.
+Proof.
+  intros w h e pre params final Hw Hh Hp.
+  destruct (vterm_safe w h e (pre ++ [Feed (27 :: 91 :: params ++ [final])]) Hw Hh) as (s & E & _).
+  - apply Forall_app. split; [assumption|repeat constructor].
+  - exists s. exact E.
+Qed.
+Print Assumptions any_csi_is_survived.
+
+(* the decoder state does not depend on where the stream is cut - also in the middle of a UTF-8 character
+   (complete, truncated or invalid) or of an escape sequence *)
+Corollary cut_anywhere :
+  forall w h e pre a b post, 1 <= w -> 1 <= h -> Forall op_ok pre ->
+  run (init w h e) (pre ++ Feed a :: Feed b :: post) = run (init w h e) (pre ++ Feed (a ++ b) :: post).
+Proof.
+  intros w h e pre a b post Hw Hh Hp.
+  pose proof (chunking_irrelevant w h e pre [a; b] post Hw Hh Hp) as H. cbn [map concat app] in H.
+  rewrite app_nil_r in H. exact H.
+Qed.
+Print Assumptions cut_anywhere.
+
+(* scrolling the view back by any amount, at any point: the canvas cursor is hidden or inside the grid *)
+Corollary scrolled_view_cursor_inside :
+  forall w h e ops up lines, 1 <= w -> 1 <= h -> Forall op_ok ops ->
+  exists s, run (init w h e) (ops ++ [ScrollBuf up lines]) = Ok s /\
+    match cursor s with None => True | Some (x, y) => 0 <= x < width s /\ 0 <= y < height s end /\
+    zlen (content s) = height s /\ Forall (fun r : row => zlen r = width s) (content s).
+Proof.
+  intros w h e ops up lines Hw Hh Ho.
+  destruct (vterm_safe w h e (ops ++ [ScrollBuf up lines]) Hw Hh) as (s & E & _ & _ & _ & C1 & C2 & _ & _ & Cu & _).
+  - apply Forall_app. split; [assumption|repeat constructor].
+  - exists s. auto.
+Qed.
+Print Assumptions scrolled_view_cursor_inside.
 
 (* the formerly failing sequences, and a mixed one, as closed computations (instances of the theorem above) *)
 Definition agree_on (w h : Z) (cs : list cmd) : bool :=
